@@ -309,6 +309,11 @@ def rhoOf (name : String) (c : CSc) : Option CSc :=
   | "c" => some c
   | "cc" => some (c * c)
   | "ci" => some c⁻¹
+  | "ccc" => some (c * c * c)
+  | "cccc" => some (c * c * c * c)
+  | "nc" => some (-c)
+  | "ncc" => some (-(c * c))
+  | "nccc" => some (-(c * c * c))
   -- `ρ·c/(1+ρ)` for ρ = c, −c, c², c⁻¹ : the response shift that makes two `G`-direction residuals
   -- `Δ•G` and `(Δ − c·m)•G` cancel under weights in ratio `1 : ρ` (times `m`, supplied as the coefficient)
   | "q:c" => some (c * c * (1 + c)⁻¹)
